@@ -53,8 +53,12 @@ func cfgRun(c rscp.ClientConfig) string {
 			return "err"
 		}
 		eff := cl.VerifConfig()
-		if eff.ReceiveTimeout != out.ReceiveTimeout || eff.ReceiveBufferBlockSize != out.ReceiveBufferBlockSize || eff.Port != out.Port {
+		if eff.ReceiveTimeout != out.ReceiveTimeout || eff.ReceiveBufferBlockSize != out.ReceiveBufferBlockSize || eff.Port != out.Port ||
+			eff.SendTimeout != out.SendTimeout || eff.ConnectionTimeout != out.ConnectionTimeout || eff.UseChecksum != out.UseChecksum {
 			return "differs"
+		}
+		if want := fmt.Sprintf("%s:%d", out.Address, out.Port); cl.VerifConnString() != want {
+			return "dials-" + cl.VerifConnString()
 		}
 		return "ok"
 	}()
